@@ -8,6 +8,7 @@ SHUFFLE = "seqs"    # worker: every seventh case is built by add_absolute_messag
 CANONICAL_ABS = True   # the function under test pairs / merges over the canonically sorted list (oracle.abs_order)
 SPLIT_WAITS = "seqs"   # worker: every fifth case is built from relative messages with rests split into adjacent waits
 DEGEN = "seqs"    # worker: every 37th case gets degenerate operands (gen.degenerate)
+REJECTED = "prefixes"    # worker: every thirteenth case starts with a call the library rejects (common.apply_prefix "rejected")
 SCALE = True   # worker: every fortieth case is blown up by scale_case below
 PROP = "C15"
 MONITORS = ["merge"]
